@@ -28,6 +28,13 @@ func (vpLogger) Panicf(format string, v ...any)   { panic("vp: logger.Panicf") }
 
 var vpLog Logger = vpLogger{}
 
+func init() {
+	vpOnReset = func() {
+		vpFromOnly = 0
+		vpConcreteBase = false
+	}
+}
+
 const (
 	vpMaxIdx  = uint64(1) << 40 // indexes, terms
 	vpMaxSize = uint64(1) << 40 // byte sizes
